@@ -320,8 +320,8 @@ def measuredDebugO0 : Kind → Nat
   | .macroCall => 16500
   | .callerCall => 16500
   | .includeTpl => 15000
-  | .blockCall => 13600
-  | .superCall => 13600
+  | .blockCall => 13000
+  | .superCall => 13000
 
 /-- the same in the release profile, upper bounds (block calls through `State::render_block`
     are the largest, 4122 bytes measured on the build without hooks); 5100 bytes before the first
@@ -329,7 +329,7 @@ def measuredDebugO0 : Kind → Nat
 def measuredRelease : Kind → Nat
   | .macroCall => 4900
   | .callerCall => 4900
-  | .includeTpl => 3400
+  | .includeTpl => 3500
   | .blockCall => 4130
   | .superCall => 3700
 
